@@ -69,14 +69,38 @@ def run(ctx):
     # from here on use the (just verified) moduli in the form the code computed them, so that let atoms coincide
     Kc, Gc = lift(out["bulk_modulus"][0]), lift(out["shear_modulus"][0])
     iso = mkarr([Kc + 4 * Gc / 3] * 3 + [s2 * (Kc - 2 * Gc / 3)] * 3 + [2 * Gc] * 3 + [ZERO] * 12)
-    hv = [h for h in I.havocs if isinstance(h[1], np.ndarray) and h[1].shape == (3,)]
-    if len(hv) != 3:
-        ctx.ob("C12.selection", "frame", "inconclusive", f"expected three havoc'ed frame columns, found {len(hv)} (the SCCS construction changed shape)", loc)
+    # the symmetry frame: read back from the selection arms of the reported axis (candidate i reports column (i+2)%3)
+    def peel(v):
+        arms = []
+        v = lift(v)
+        while v.is_monomial():
+            ((m_, c_),) = v.t.items()
+            if c_ != 1 or len(m_) != 1 or m_[0][1] != 1 or m_[0][0].kind != "fn:select":
+                break
+            cond, a_, b_ = m_[0][0].args
+            arms.append(a_)
+            v = lift(b_)
+        return arms, v
+    cols = {}
+    okframe = True
+    for r in range(3):
+        arms, rest = peel(out["hexagonal_axis"][0, r])
+        if len(arms) != 3:
+            okframe = False
+            break
+        for i_, a_ in enumerate(reversed(arms)):   # innermost arm belongs to candidate 0
+            cols.setdefault((i_ + 2) % 3, {})[r] = a_
+    if not okframe or sorted(cols) != [0, 1, 2]:
+        ctx.ob("C12.selection", "frame", "inconclusive", "the reported axis is not a three-way selection over candidate frames (the search changed shape)", loc)
         return
     H = np.empty((3, 3), dtype=object)
-    for i, h in enumerate(hv):
-        H[:, i] = h[1]
-    ctx.count("havoc_symbols", 9)
+    for j_ in range(3):
+        for r in range(3):
+            H[r, j_] = cols[j_][r]
+    ctx.rule("C12.unit-axis", "every candidate symmetry axis (column of the symmetry frame) is normalised: sum_r H[r,j]^2 == 1 by construction")
+    for j_ in range(3):
+        ident(ctx, "C12.unit-axis", f"frame column {j_}", sum((lift(H[r, j_]) * lift(H[r, j_]) for r in range(3)), ZERO), ONE, loc)
+    ctx.count("havoc_symbols", sum(int(np.size(h[1])) for h in I.havocs))
     Tn = comp("voigt_to_elastic_tensor", M.copy())
     un = alg.sym("<uninit>")
     keys = ["percent_triclinic", "percent_monoclinic", "percent_orthorhombic", "percent_tetragonal", "percent_hexagonal"]
